@@ -107,7 +107,12 @@ def import_module(modname):
 
 
 def describe(spec):
-    fi, node = find_def(spec)
+    try:
+        fi, node = find_def(spec)
+    except MissingFunction as e:
+        # the function no longer exists under this name: reported in evidence, obligations about its behaviour are still generated
+        # from whatever code now implements it (e.g. an inherited method)
+        return {'function': spec, 'file': None, 'lines': None, 'sha256': None, 'missing': str(e)}
     return {'function': spec, 'file': os.path.relpath(fi.path, REPO), 'lines': [node.lineno, node.end_lineno],
             'sha256': fi.sha(node)}
 
